@@ -42,6 +42,9 @@ fn save_load<T: SerdeAPI>(x: &T, fmt: &str, file: bool) -> Result<T, (String, St
         let dir = std::env::temp_dir().join(format!("altrios-mc-c17-{}-{:?}", std::process::id(), std::thread::current().id()));
         let _ = std::fs::create_dir_all(&dir);
         let p = dir.join(format!("obj.{fmt}"));
+        // the path already holds an older, LONGER file (a rolling checkpoint / re-used results file): to_file is
+        // documented to truncate it
+        let _ = std::fs::write(&p, vec![b'#'; 1 << 20]);
         let r = (|| {
             x.to_file(&p).map_err(|e| ("save".to_string(), format!("{e:#}")))?;
             T::from_file(&p).map_err(|e| ("load".to_string(), format!("{e:#}")))
@@ -481,7 +484,7 @@ impl Prop for C17 {
         "fault_enumeration"
     }
     fn rule(&self, tier: Tier) -> String {
-        format!("E-CKPT: {} catalogue entries (the four components default and stepped, Locomotive conv/BEL/hybrid/dummy, Consist default and stepped, PowerTrace, SpeedTrace, RailVehicle, TrainConfig, TrainSimBuilder, TrainParams, PathTpc unfinished/finished, FricBrake, Network, EstTimeNet, timed path, SetSpeedTrainSim::default, SpeedLimitTrainSim::valid, and three run shapes each of LocomotiveSimulation / ConsistSimulation / SetSpeedTrainSim / SpeedLimitTrainSim) x formats {{yaml, json, bin}} x {{string/bytes API, to_file/from_file}} x EVERY step index 0..{} of the runs as the checkpoint position (checkpoint = crash point). Oracle: save and load succeed, load(save(x)) == load(save(load(save(x)))), the reloaded object describes the same object, and the run resumed from the reloaded copy reproduces every remaining step and the final state (bit-exact for yaml/bin, 1e-9 relative for json). distinct_nontrivial = distinct (subject, format, outcome class) signatures.", subjects().len(), n_steps(tier))
+        format!("E-CKPT: {} catalogue entries (the four components default and stepped, Locomotive conv/BEL/hybrid/dummy, Consist default and stepped, PowerTrace, SpeedTrace, RailVehicle, TrainConfig, TrainSimBuilder, TrainParams, PathTpc unfinished/finished, FricBrake, Network, EstTimeNet, timed path, SetSpeedTrainSim::default, SpeedLimitTrainSim::valid, and three run shapes each of LocomotiveSimulation / ConsistSimulation / SetSpeedTrainSim / SpeedLimitTrainSim) x formats {{yaml, json, bin}} x {{string/bytes API, to_file/from_file onto a path that already holds a longer file}} x EVERY step index 0..{} of the runs as the checkpoint position (checkpoint = crash point). Oracle: save and load succeed, load(save(x)) == load(save(load(save(x)))), the reloaded object describes the same object, and the run resumed from the reloaded copy reproduces every remaining step and the final state (bit-exact for yaml/bin, 1e-9 relative for json). distinct_nontrivial = distinct (subject, format, outcome class) signatures.", subjects().len(), n_steps(tier))
     }
     fn assumptions(&self) -> Vec<String> {
         vec![
